@@ -64,7 +64,7 @@ Muts2(b) == Muts(b) \cup {[b EXCEPT ![j] = 255] : j \in 1..Len(b)} \cup {[b EXCE
             \cup {Over(b, j, <<254, 255, 255>>) : j \in 1..(Len(b) - 2)}
             \cup {Over(b, j, <<255, 0, 0, 16, 0, 0, 0, 0, 0>>) : j \in 1..(Len(b) - 8)}
 StepMut2 == /\ st.kind = "val" /\ st.k < KMut2 /\ TY(st.tn).tl2
-            /\ \E m \in Muts2(Enc2(st.tn, st.v, FALSE)) : st' = [kind |-> "bytes2", tn |-> st.tn, b |-> m, k |-> 0]
+            /\ \E m \in Muts2(Enc2(st.tn, st.v, FALSE)) \cup {Enc2M(st.tn, st.v, FALSE, cm) : cm \in CountModes} : st' = [kind |-> "bytes2", tn |-> st.tn, b |-> m, k |-> 0]
 
 (* function results: the result type is instantiated with the nat fields of the request *)
 ResEnv(tn, q) == ArgsVal(TY(tn).resNa, NoEnv, TY(tn), q)
